@@ -32,7 +32,7 @@ Local Open Scope list_scope.
 Definition finish_r (root sec : cfg) (steps : list (nat * nat)) (want_index : bool)
            (last : option optref) (index : Z) (name : str) : resolved :=
     if want_index then {| rs_opt := last; rs_index := index; rs_diags := [] |}
-    else match name with [] => {| rs_opt := None; rs_index := index; rs_diags := [] |} | _ =>
+    else match name with [] => {| rs_opt := None; rs_index := index; rs_diags := if cflag root CFGF_IGNORE_UNKNOWN then [] else cfg_diag root "no such option '%s'" |} | _ =>
          match getopt_leaf sec name with
          | Some i => {| rs_opt := Some (rev steps, i); rs_index := index; rs_diags := [] |}
          | None => {| rs_opt := None; rs_index := index;
@@ -103,7 +103,7 @@ Lemma secidx_loop_eq : forall fuel' root sec steps name wi last index,
     let len := strcspn name is_bar_eq in
     let after := skipn len name in
     if negb wi && match after with [] => true | _ => false end then finish_r root sec steps wi last index name
-    else if Nat.eqb len 0 then {| rs_opt := None; rs_index := index; rs_diags := [] |}
+    else if Nat.eqb len 0 then {| rs_opt := None; rs_index := index; rs_diags := if cflag root CFGF_IGNORE_UNKNOWN then [] else cfg_diag root "no such option '%s'" |}
     else
       let '(oi, i, title, name1, len1) := mtuple sec name len after (firstn len name) in
       let index' := if wi then i else index in
@@ -115,7 +115,7 @@ Lemma secidx_loop_eq : forall fuel' root sec steps name wi last index,
           let name3 := skipn nbars name2 in
           let garbage := match name2 with c :: _ => negb (is_bar c) | [] => false end in
           let trailing := match name3 with [] => negb (Nat.eqb nbars 0) | _ => false end in
-          if garbage || trailing then {| rs_opt := None; rs_index := index'; rs_diags := [] |}
+          if garbage || trailing then {| rs_opt := None; rs_index := index'; rs_diags := if cflag root CFGF_IGNORE_UNKNOWN then [] else cfg_diag root "no such option '%s'" |}
           else secidx_loop fuel' root s ((k, v) :: steps) name3 wi (Some (rev steps, k)) index'
       end
   end.
